@@ -1,6 +1,7 @@
 """C04 BWT / Occ — SB-10: writer/reader agreement of the sampled occurrence table (Occ::new vs Occ::get), incl. the
 look-ahead branch for k > 64, compared as polynomials over (r, k, r / k); GD-9: bwt() wraps around only at text
 position 0."""
+import re
 from . import eng_gd
 from .mirlib import call_info, strip, strip_casts, fmt, walk
 from .poly import poly, pstr
@@ -193,23 +194,41 @@ def run(facts, rep, ctx):
     if b is None:
         rep.missing(rule2, key, 'not found')
         return
-    rep.analysed_body(b)
-    es = eng_gd.edges_where(b, lambda c: c[0] == 'Lt' and c[1] == '0')
+    # the element expression lives in bwt() itself (indexed loop) or in a closure handed to an iterator adaptor (map/collect)
     good = False
-    if len(es) == 1:
+    es = []
+    home = b
+    cands = []
+    for fb in facts.family(b):
+        rep.analysed_body(fb)
+        e1 = eng_gd.edges_where(fb, lambda c: c[0] == 'Lt' and c[1] == '0')
+        if e1:
+            cands.append((fb, e1))
+    if len(cands) == 1 and len(cands[0][1]) == 1:
+        home, es = cands[0]
+        vocab = {}
+        if home.kind == 'Closure':
+            from . import eng_po
+            vocab = eng_po.closure_vocabulary(facts, home)[1]
+
+        def is_len(atom):
+            m = re.fullmatch(r'_1\.\^(\w+)', atom)
+            if m and m.group(1) in vocab:
+                atom = vocab[m.group(1)]
+            return 'len' in atom
         gbb, pos_t, _c, zero_t = es[0]
         pidx = {}
-        for bb in b.reachable(0):
-            t = b.term(bb)
+        for bb in home.reachable(0):
+            t = home.term(bb)
             if t['k'] == 'assert' and t['msg']['k'] == 'bounds':
-                e = strip_casts(b.expr_operand(t['msg']['index'], inline_user=True))
+                e = strip_casts(home.expr_operand(t['msg']['index'], inline_user=True))
                 pidx[bb] = e
-        a_pos = [poly(e) for bb, e in pidx.items() if b.edge_dominates((gbb, pos_t), bb)]
-        a_zero = [poly(e) for bb, e in pidx.items() if b.edge_dominates((gbb, zero_t), bb)]
+        a_pos = [poly(e) for bb, e in pidx.items() if home.edge_dominates((gbb, pos_t), bb)]
+        a_zero = [poly(e) for bb, e in pidx.items() if home.edge_dominates((gbb, zero_t), bb)]
         good = len(a_pos) == 1 and len(a_zero) == 1 and a_pos[0].get((), 0) == -1 and len(a_pos[0]) == 2 and \
-            a_zero[0].get((), 0) == -1 and any('len' in m[0] for m in a_zero[0] if m)
+            a_zero[0].get((), 0) == -1 and any(is_len(m[0]) for m in a_zero[0] if m)
     if good:
-        rep.ok(rule2, key, b.loc(es[0][0]), 'text[p - 1] if p > 0 else text[n - 1]')
+        rep.ok(rule2, key, home.loc(es[0][0]), 'text[p - 1] if p > 0 else text[n - 1]')
     else:
         rep.bad(rule2, key, '%s:%s' % (b.file, b.line), 'the BWT symbol of row r is not the cyclic predecessor of suffix pos[r]')
 
